@@ -293,31 +293,63 @@ func gen(r *hx.Rng, backend string, loss bool, allowSlow bool) *kase {
 	add := func(op string, c, dt int) { k.Cmds = append(k.Cmds, cmd{op, c, dt}) }
 	free := func() bool { return !held || expired }
 	if loss {
-		// a holder loses its lock while a contender waits
-		a, b := fresh(), fresh()
-		add("lock", a, 0)
-		if r.Chance(70) {
-			add("lockasync", b, 0)
+		// a holder loses its lock (TTL elapses / lease revoked) while contenders wait or try;
+		// afterwards every involved lock context is observed
+		a := fresh()
+		if r.Chance(25) { // some history on the key first
+			h := fresh()
+			add(hx.Pick(r, "lock", "trylock"), h, 0)
+			add("unlock", h, 0)
+		}
+		add(hx.Pick(r, "lock", "lock", "trylock"), a, 0)
+		if backend == "redis" && r.Chance(40) { // part of the TTL passes first
+			add("ff", 0, hx.Pick(r, 100, k.TTL/2, k.TTL-1))
+		}
+		if r.Chance(30) { // a try-lock bounces off the live holder
+			add("trylock", fresh(), 0)
+		}
+		lose := func() {
 			if backend == "redis" {
 				add("ff", 0, k.TTL+r.Intn(3)*100)
 			} else {
 				add("revoke", a, 0)
 			}
-			add("join", b, 0)
-		} else {
-			if backend == "redis" {
-				add("ff", 0, k.TTL+r.Intn(3)*100)
-			} else {
-				add("revoke", a, 0)
-			}
+		}
+		b := fresh()
+		switch r.Intn(4) {
+		case 0: // contender arrives after the loss
+			lose()
+			add(hx.Pick(r, "trylock", "lock"), b, 0)
+		case 1: // holder observed before anybody else comes
+			lose()
+			add("observe", a, 0)
 			add("trylock", b, 0)
+		default: // contender blocked in Lock across the loss
+			add("lockasync", b, 0)
+			lose()
+			add("join", b, 0)
 		}
 		add("observe", a, 0)
 		add("observe", b, 0)
-		if r.Chance(50) {
-			add("unlock", a, 0)
+		if r.Chance(40) { // a third client bounces off the new holder
+			add("trylock", fresh(), 0)
 		}
-		add("unlock", b, 0)
+		switch r.Intn(3) {
+		case 0:
+			add("unlock", a, 0) // the old holder's late unlock must not free the new holder's lock
+			if r.Chance(50) {
+				add("trylock", fresh(), 0)
+			}
+			add("unlock", b, 0)
+		case 1:
+			add("unlock", b, 0)
+			add("unlock", a, 0)
+		default:
+			add("unlock", b, 0)
+		}
+		if r.Chance(30) {
+			add("observe", b, 0) // after a normal unlock the context is not cancelled with an error
+		}
 		k.Clients = next
 		return k
 	}
